@@ -15,40 +15,40 @@ Local Notation EL := (exec_loop m T K).
 (* if/else: the popped value selects the branch; anything but 0/1 fails after the SPLIT row and
    neither branch runs (the error state is the state right after the condition was dropped) *)
 Lemma split_true f t e s s1 :
-  get s 0 = 1 -> step m Drop s = Ok s1 ->
-  EB (S f) (BSplit t e) s = bind (EB f t s1) (step m Noop).
-Proof. intros Hc Hs. cbn [exec_block]. unfold stepc. rewrite Hs, Hc. reflexivity. Qed.
+  get s 0 = 1 -> cstep m Split Drop s = Ok s1 ->
+  EB (S f) (BSplit t e) s = bind (EB f t s1) (cstep m End Noop).
+Proof. intros Hc Hs. cbn [exec_block]. unfold cst. rewrite Hs, Hc. reflexivity. Qed.
 
 Lemma split_false f t e s s1 :
-  get s 0 = 0 -> step m Drop s = Ok s1 ->
-  EB (S f) (BSplit t e) s = bind (EB f e s1) (step m Noop).
-Proof. intros Hc Hs. cbn [exec_block]. unfold stepc. rewrite Hs, Hc. reflexivity. Qed.
+  get s 0 = 0 -> cstep m Split Drop s = Ok s1 ->
+  EB (S f) (BSplit t e) s = bind (EB f e s1) (cstep m End Noop).
+Proof. intros Hc Hs. cbn [exec_block]. unfold cst. rewrite Hs, Hc. reflexivity. Qed.
 
 Lemma split_nonbinary f t e s s1 :
-  get s 0 <> 0 -> get s 0 <> 1 -> step m Drop s = Ok s1 ->
+  get s 0 <> 0 -> get s 0 <> 1 -> cstep m Split Drop s = Ok s1 ->
   EB (S f) (BSplit t e) s = Err (NotBinary (get s 0)) s1.
 Proof.
-  intros H0 H1 Hs. cbn [exec_block]. unfold stepc. rewrite Hs. cbn [bind].
+  intros H0 H1 Hs. cbn [exec_block]. unfold cst. rewrite Hs. cbn [bind].
   destruct (get s 0 =? 1) eqn:E1; [apply Z.eqb_eq in E1; congruence|].
   destruct (get s 0 =? 0) eqn:E0; [apply Z.eqb_eq in E0; congruence|]. reflexivity.
 Qed.
 
 (* while: entry *)
 Lemma loop_enter f body s s1 :
-  get s 0 = 1 -> step m Drop s = Ok s1 ->
+  get s 0 = 1 -> cstep m Loop Drop s = Ok s1 ->
   EB (S f) (BLoop body) s = bind (EB f body s1) (EL f body).
-Proof. intros Hc Hs. cbn [exec_block]. unfold stepc. rewrite Hs, Hc. reflexivity. Qed.
+Proof. intros Hc Hs. cbn [exec_block]. unfold cst. rewrite Hs, Hc. reflexivity. Qed.
 
 Lemma loop_skip f body s s1 :
-  get s 0 = 0 -> step m Drop s = Ok s1 ->
-  EB (S f) (BLoop body) s = step m Noop s1.
-Proof. intros Hc Hs. cbn [exec_block]. unfold stepc. rewrite Hs, Hc. reflexivity. Qed.
+  get s 0 = 0 -> cstep m Loop Drop s = Ok s1 ->
+  EB (S f) (BLoop body) s = cstep m End Noop s1.
+Proof. intros Hc Hs. cbn [exec_block]. unfold cst. rewrite Hs, Hc. reflexivity. Qed.
 
 Lemma loop_entry_nonbinary f body s s1 :
-  get s 0 <> 0 -> get s 0 <> 1 -> step m Drop s = Ok s1 ->
+  get s 0 <> 0 -> get s 0 <> 1 -> cstep m Loop Drop s = Ok s1 ->
   EB (S f) (BLoop body) s = Err (NotBinary (get s 0)) s1.
 Proof.
-  intros H0 H1 Hs. cbn [exec_block]. unfold stepc. rewrite Hs. cbn [bind].
+  intros H0 H1 Hs. cbn [exec_block]. unfold cst. rewrite Hs. cbn [bind].
   destruct (get s 0 =? 1) eqn:E1; [apply Z.eqb_eq in E1; congruence|].
   destruct (get s 0 =? 0) eqn:E0; [apply Z.eqb_eq in E0; congruence|]. reflexivity.
 Qed.
@@ -56,12 +56,12 @@ Qed.
 (* while: after an iteration the value on top decides: 1 repeats, 0 leaves, anything else fails *)
 Lemma loop_again f body s :
   get s 0 = 1 ->
-  EL (S f) body s = bind (step m Drop s) (fun s1 => bind (EB f body s1) (EL f body)).
-Proof. intros Hc. cbn [exec_loop]. unfold stepc. rewrite Hc. reflexivity. Qed.
+  EL (S f) body s = bind (cstep m Repeat Drop s) (fun s1 => bind (EB f body s1) (EL f body)).
+Proof. intros Hc. cbn [exec_loop]. unfold cst. rewrite Hc. reflexivity. Qed.
 
 Lemma loop_exit f body s :
-  get s 0 = 0 -> EL (S f) body s = step m Drop s.
-Proof. intros Hc. cbn [exec_loop]. unfold stepc. rewrite Hc. reflexivity. Qed.
+  get s 0 = 0 -> EL (S f) body s = cstep m End Drop s.
+Proof. intros Hc. cbn [exec_loop]. unfold cst. rewrite Hc. reflexivity. Qed.
 
 Lemma loop_iter_nonbinary f body s :
   get s 0 <> 0 -> get s 0 <> 1 -> EL (S f) body s = Err (NotBinary (get s 0)) s.
@@ -74,7 +74,7 @@ Qed.
 (* join: first child, then second child, between a JOIN row and an END row *)
 Lemma join_seq f x y s :
   EB (S f) (BJoin x y) s =
-  bind (step m Noop s) (fun s1 => bind (EB f x s1) (fun s2 => bind (EB f y s2) (step m Noop))).
+  bind (cstep m Join Noop s) (fun s1 => bind (EB f x s1) (fun s2 => bind (EB f y s2) (cstep m End Noop))).
 Proof. reflexivity. Qed.
 
 End Control.
